@@ -22,7 +22,7 @@ RULE = ("every dataset of the program uses a ScriptedCache(Cache): a contract-ab
         "right after a set), forget = drop the entry (a set stores nothing). part 'exhaustive-scripts': ALL 5^N scripts "
         "for the first N backend calls (N=5 quick, N=6 thorough; later calls behave) x a fixed family of 3 dataset "
         "graphs x a 4-step history with a repeat; part 'random-scripts': random programs x random histories x random "
-        "scripts of length <=40 (a third of them on a backend that inherits exists() from the Cache base class). Every evaluation must return the reference value without raising. Non-trivial = at "
+        "scripts of length <=40 (a third of them on a backend that inherits exists() from the Cache base class, others on a wrapper backend whose failures name an inner cache object). Every evaluation must return the reference value without raising. Non-trivial = at "
         "least one non-'behave' entry was consumed by a backend call; distinct = distinct (graph, history, script) hash.")
 ASSUMPTIONS = [
     "the backend never returns a value other than the one set for that fingerprint (Cache contract)",
@@ -89,6 +89,20 @@ class ScriptedCache(Cache):
         return f"ScriptedCache({self.name})"
 
 
+class ScriptedTiered(ScriptedCache):
+    """A wrapper backend that forwards to an inner store: the failures it lets through name the inner cache object."""
+
+    def __init__(self, script, name):
+        super().__init__(script, name)
+        self.inner = ScriptedCache(Script([]), name + ".inner")
+
+    def get(self, evaluatable, options):
+        try:
+            return super().get(evaluatable, options)
+        except CacheGetFailure as e:
+            raise CacheGetFailure(evaluatable, options, self.inner) from e
+
+
 class ScriptedCacheInheritedExists(ScriptedCache):
     """A backend that does not implement exists() itself: the Cache base class answers it by trying get()."""
     exists = Cache.exists
@@ -98,7 +112,7 @@ def check(case, ctx):
     spec = specgen.normalise(case["spec"], ctx.flags | {"no-allopts"}, ctx)
     ref = Ref(spec)
     script = Script(case["script"])
-    backend = ScriptedCacheInheritedExists if case.get("inherited_exists") else ScriptedCache
+    backend = ScriptedCacheInheritedExists if case.get("inherited_exists") else ScriptedTiered if case.get("tiered") else ScriptedCache
     G = build(spec, cache_factory=lambda name: backend(script, name))
     if "no-coalesce-value-failure" in ctx.flags and any("absorbed-under-cache" in ref.run(o).labels for o in case["history"]):
         ctx.exclude("no-coalesce-value-failure")
@@ -129,6 +143,8 @@ def check(case, ctx):
         labels.add(f"fault-fired:{f}@{call}")
     if case.get("inherited_exists"):
         labels.add("backend-inherits-exists")
+    elif case.get("tiered"):
+        labels.add("backend-forwards-to-inner-cache")
     ctx.done(case, bool(script.fired), labels)
 
 
@@ -154,7 +170,7 @@ def enum_scripts(ctx):
             # for the coalesce graph the first dictionary already makes a non-last member fail, so that the enumerated
             # faults hit the validation / recovery calls of that member
             h = [{"A": 2}, {"A": 1, "K": 1}, {"A": 2}, {"K": 3}] if fi == 1 else hist
-            yield {"spec": spec, "history": h, "script": list(script), "family": fi, "reuse_dict_object": k % 2 == 0}
+            yield {"spec": spec, "history": h, "script": list(script), "family": fi, "reuse_dict_object": k % 2 == 0, "tiered": k % 3 == 0}
     ctx.exhaustive[f"all-5^{n}-fault-scripts-x-4-graphs"] = ctx.exhaustive.get(f"all-5^{n}-fault-scripts-x-4-graphs", 0) + k // ctx.nshards
 
 
@@ -164,7 +180,7 @@ def cases(draw, prof):
     hist = draw(U.histories(min_len=2, max_len=6, p_present=0.9, allow_unmentioned=False))
     script = draw(st.lists(st.sampled_from(FAULTS + ["behave"] * 3), min_size=1, max_size=40))
     return {"spec": spec, "history": hist, "script": script, "reuse_dict_object": draw(st.booleans()),
-            "inherited_exists": draw(st.sampled_from([False, False, True]))}
+            "inherited_exists": draw(st.sampled_from([False, False, True])), "tiered": draw(st.sampled_from([False, True]))}
 
 
 PROFILE = specgen.profile(depth=2, domain_rate=0.01, max_defs=5, effects=False)
